@@ -326,7 +326,7 @@ META["C10"] = {
 
 META["C12"] = {
     "title": "BehaviorSubject hands every new subscriber the current value first",
-    "rule": "sequential part: random histories of length <= 10 quick / <= 24 thorough over next / next_by / clone / subscribe / unsubscribe / peek / complete / error on BehaviorSubject over Subject and over SubjectThreads, <= 3 subscribers, compared step by step with a model (first item of a new subscriber = most recent value passed to any clone, peek() = that value, next_by(f) emits f(that value), every later item exactly once); non-trivial: a subscriber joined after at least one next. Thread part: 2-3 producer threads and late subscribers on BehaviorSubject<_, SubjectThreads> under the baton scheduler: at quiescence peek() must equal the last item of the order observed by the always-present subscriber, and a late subscriber's sequence must be [v] followed by the suffix of that order that follows v. distinct = hash(history) / hash(scenario, schedule).",
+    "rule": "sequential part: random histories of length <= 10 quick / <= 24 thorough over next / next_by / clone / subscribe / unsubscribe / peek / complete / error on BehaviorSubject over Subject and over SubjectThreads, <= 3 subscribers, compared step by step with a model (first item of a new subscriber = most recent value passed to any clone, peek() = that value, next_by(f) emits f(that value), every later item exactly once); non-trivial: a subscriber joined after at least one next. Thread part: 2-3 producer threads and late subscribers on BehaviorSubject<_, SubjectThreads> under the baton scheduler: at quiescence peek() must equal the last item of the order observed by the always-present subscriber, a late subscriber's sequence must be [v] followed by the suffix of that order that follows v, and the always-present subscriber must have received every item whose next() returned exactly once (no terminal or unsubscribe is scripted); the same producers also run free on OS threads with seeded jitter at the lock points. distinct = hash(history) / hash(scenario, schedule).",
     "assumptions": COMMON_ASSUME + [
         "after a terminal, a new subscriber may receive the stored value alone or followed by nothing else; the stored value follows the statement (most recent value passed to any clone)",
     ],
@@ -334,7 +334,7 @@ META["C12"] = {
     "level_text": "Exploration over sampled histories and lock-level schedules.",
     "level_note": "Trusted: model in harness/src/props/c12.rs, baton scheduler.",
     "design_ref": "DESIGN.md §5 C12",
-    "require": {"quick": {"subject_types_covered": 2, "thread_schedules": 4000}, "thorough": {"subject_types_covered": 2}},
+    "require": {"quick": {"subject_types_covered": 2, "thread_schedules": 4000, "free_parallel_runs": 1500}, "thorough": {"subject_types_covered": 2, "thread_schedules": 300000, "free_parallel_runs": 100000}},
 }
 
 META["C10"]["extra"] = miri_extra("C10", 24, 32)
